@@ -5,7 +5,11 @@ C10 — model of tetl's integer <-> text conversion, one model for every integer
   `etl::abs`, `etl::reverse`) and its wrappers `to_chars` (_charconv/to_chars.hpp) and
   `to_string<Capacity>` (_string/to_string.hpp);
 * `strings::to_integer` (include/etl/_strings/to_integer.hpp, with the two overflow checkers
-  and the `cctype` predicates it calls) and its wrappers `from_chars`, `sto*`, `strto*`, `ato*`.
+  and the `cctype` predicates it calls; the checkers and `parseDigit` are also TRANSLATED from the clang AST:
+  Tetl/C10/Gen.lean, proved equal to the definitions here in TetlProofs/C10/GenProps.lean) and its wrapper
+  `from_chars`;
+* `strings::detail::strto_integer` (include/etl/_strings/strto_integer.hpp), the C grammar on top of `to_integer`,
+  and its wrappers `strto*`, `ato*`, `sto*`.
 
 An integer type is `(bits, signed)`.  Values are `Int`; every arithmetic result that the C++
 converts back to `Int` goes through `IntTy.arith`, which wraps where the C++ wraps (unsigned
@@ -318,20 +322,87 @@ def fromChars (t : IntTy) (s : List Nat) (base : Int) : Except Err FCRes := do
 /-- `strlen`: the C string functions see the text up to the first NUL -/
 def cstrOf (s : List Nat) : List Nat := s.takeWhile (· != 0)
 
-/-- `strtol/strtoll/strtoul/strtoull(str, &last, base)` = `to_integer<R>(string_view(str), base)`;
-    returns `(value, last - str)`.  `sto*(view, &pos, base)` is the same on the view. -/
-def strto (t : IntTy) (s : List Nat) (base : Int) : Except Err (Int × Nat) := do
-  let r ← toInteger t true s base
-  .ok (r.value, r.endPos)
+/-! ### the C library conversion `strings::detail::strto_integer` (include/etl/_strings/strto_integer.hpp)
+
+`strtol`, `strtoll`, `strtoul`, `strtoull`, `atoi`, `atol`, `atoll` and `sto*` are this function on the C string /
+the view.  It does the pre-processing of C17 7.22.1.4 itself — white space, one sign `+`/`-`, a `0x`/`0X` prefix
+in base 16 — and converts the digits with `to_integer` in the UNSIGNED type of the same width (`UInt`); base 0 is
+passed on to `to_integer`, which detects the base. -/
+
+/-- `etl::isxdigit` -/
+def isxdigit (ch : Int) : Bool :=
+  (decide (ch ≥ 48) && decide (ch ≤ 57)) || (decide (ch ≥ 97) && decide (ch ≤ 102)) ||
+    (decide (ch ≥ 65) && decide (ch ≤ 70))
+
+/-- `if (pos != length and (str[pos] == '+' or str[pos] == '-')) { negative = str[pos] == '-'; ++pos; }`;
+    returns `(negative, pos)` -/
+def strtoSign (s : List Nat) (pos : Nat) : Except Err (Bool × Nat) :=
+  if pos != s.length then do
+    let c ← rd s pos
+    if c == 43 || c == 45 then .ok (c == 45, pos + 1) else .ok (false, pos)
+  else .ok (false, pos)
+
+/-- `if (base == 16 and length - pos > 2 and str[pos] == '0' and (str[pos + 1] == 'x' or str[pos + 1] == 'X')
+    and isxdigit(str[pos + 2]) != 0) pos += 2;` — short-circuit evaluation left to right: the nested `if`s -/
+def strtoPrefix (s : List Nat) (base : Int) (pos : Nat) : Except Err Nat :=
+  if base == 16 && decide (s.length - pos > 2) then do
+    let c0 ← rd s pos
+    if c0 == 48 then do
+      let c1 ← rd s (pos + 1)
+      if c1 == 120 || c1 == 88 then do
+        let c2 ← rd s (pos + 2)
+        if isxdigit (toInt c2) then .ok (pos + 2) else .ok pos
+      else .ok pos
+    else .ok pos
+  else .ok pos
+
+/-- `strto_integer` from the conversion of the digits on: `digits = str.substr(pos)`, converted as
+    `UInt = make_unsigned_t<Int>`; on `overflow` a second pass without the overflow check (`toIntegerNC`;
+    unsigned arithmetic wraps) finds the end of the digits and the result is the saturated value; a magnitude
+    above `max()` (`max() + 1` after a `-`) saturates as well; `-` negates in `UInt` and the result is converted
+    to `Int` (`static_cast`: two's complement).  (`max() + negative` is representable in `UInt`: no cast effect.)
+    Returns `(value, end - str.data())`. -/
+def strtoDigits (t : IntTy) (negative : Bool) (pos : Nat) (digits : List Nat) (base : Int) :
+    Except Err (Int × Nat) := do
+  let u : IntTy := ⟨t.bits, false⟩
+  let saturated := if t.signed then (if negative then t.minV else t.maxV) else t.maxV
+  let r ← toInteger u false digits base
+  match r.err with
+  | .invalid => .ok (0, 0)
+  | .overflow => do
+    let all ← toIntegerNC u false digits base
+    .ok (saturated, pos + all.endPos)
+  | .none =>
+    let magnitude := r.value
+    let limit := t.maxV + (if negative then 1 else 0)
+    if t.signed && decide (magnitude > limit) then .ok (saturated, pos + r.endPos)
+    else if negative then .ok (t.wrap (u.wrap (0 - magnitude)), pos + r.endPos)
+    else .ok (t.wrap magnitude, pos + r.endPos)
+
+/-- `strto_integer` after the white-space loop, `pos0` = current `pos`: sign, prefix, `substr`
+    (`TETL_PRECONDITION(pos <= size())`), digits -/
+def strtoAt (t : IntTy) (s : List Nat) (base : Int) (pos0 : Nat) : Except Err (Int × Nat) := do
+  let (negative, pos1) ← strtoSign s pos0
+  let pos ← strtoPrefix s base pos1
+  if pos ≤ s.length then strtoDigits t negative pos (s.drop pos) base
+  else .error (.pre "substr: pos <= size()")
+
+/-- `strto_integer<Int>(str, base)`: returns `(value, end - str.data())`.  `base` is 0 or in `[2, 36]` (C17
+    7.22.1.4; the code has no check). -/
+def strto (t : IntTy) (s : List Nat) (base : Int) : Except Err (Int × Nat) :=
+  if base != 0 && (base < 2 || base > 36) then .error (.pre "base = 0 or 2 <= base <= 36")
+  else do
+    let pos0 ← skipWs s s.length 0
+    strtoAt t s base pos0
 
 /-- `strtol/strtoll/strtoul/strtoull(str, &last, base)` on a `char const*`: the `string_view(str)`
     constructor measures the text with `strlen`, i.e. nothing at or after the first NUL is looked at -/
 def cstrto (t : IntTy) (s : List Nat) (base : Int) : Except Err (Int × Nat) := strto t (cstrOf s) base
 
-/-- `atoi/atol/atoll(str)` -/
+/-- `atoi/atol/atoll(str)` = `strto_integer<R>(str, 10).value` -/
 def ato (t : IntTy) (s : List Nat) : Except Err Int := do
-  let r ← toInteger t true (cstrOf s) 10
-  .ok r.value
+  let r ← strto t (cstrOf s) 10
+  .ok r.1
 
 /-- `to_chars` into a buffer that is large enough, then `from_chars` on `[buffer, ptr)` -/
 def roundTrip (t : IntTy) (v : Int) (base : Int) : Except Err (Option (FCRes × Nat)) := do
